@@ -399,6 +399,9 @@ func (r *Resolver) resolve(ctx context.Context, name string, aliased *bool) (Res
 			v := https[i].(dns.HTTPS)
 			if v.Priority == 0 && len(v.Target) == 0 {
 				result.HTTPS = nil
+				if aliased != nil {
+					*aliased = true
+				}
 				break
 			}
 			if v.Priority == 0 {
